@@ -32,6 +32,14 @@ PROBES = ["parse_error_then_valid", "valid_then_parse_error", "close_then_reopen
           "wssym_nonempty", "completion_nonempty", "non_file_uri"]
 REQS = ["hover", "definition", "completion", "semtok", "wssym"]
 
+# what each fixed library text exports, as (selector suffix, type): lets documents depend on imported shapes
+LIB_EXPORTS = [
+    [(".x", "int"), (".name", "str")],
+    [(".host", "str"), (".port", "int"), (".conf.host", "str"), (".conf.port", "int")],
+    [(".default.port", "int"), (".default.tags", "other")],
+    [(".derived.port", "int"), (".derived.host", "str"), (".base.host", "str"), (".base.conf.port", "int"), (".base.port", "int")],
+    [(".total", "int"), (".items", "other")],
+]
 LIB_TEXTS = [
     'let x = 1;\nlet name = "lib";\nlet mk = func (a) => {v = a};\n',
     'let host = "localhost";\nlet port = 8080;\nlet conf = {host = host, port = port};\n',
@@ -58,13 +66,13 @@ def generate(rng, tier, idx):
     lib_names = ["base.ucg", "shapes.ucg", "util.ucg", "more.ucg"]
     for i in range(nlibs):
         d = "libs/" if (nested and rng.chance(50)) else ""
-        text = LIB_TEXTS[i % len(LIB_TEXTS)] if rng.chance(70) else gen_ucg.gen_program(rng, (), True)
+        fixed = (i + 1) % len(LIB_TEXTS) if (i == 0 or rng.chance(75)) else None
+        text = LIB_TEXTS[fixed] if fixed is not None else gen_ucg.gen_program(rng, (), True)
         if i == 0:
             d = ""
-            text = LIB_TEXTS[1]
         if "import \"./base.ucg\"" in text and d:
             text = text.replace("./base.ucg", "../base.ucg")
-        ws.append({"path": d + lib_names[i], "text": text})
+        ws.append({"path": d + lib_names[i], "text": text, "fixed": fixed})
     ndocs = rng.between(1, 3)
     docs = []
     for i in range(ndocs):
@@ -74,6 +82,10 @@ def generate(rng, tier, idx):
             kind = "untitled"
         docs.append({"path": d + "doc%d.ucg" % i, "kind": kind, "on_disk": rng.chance(60) and kind == "file"})
     # import paths usable from a document
+    def exports_for(doc):
+        up = "../" if doc["path"].startswith("sub/") else "./"
+        return {up + w["path"]: LIB_EXPORTS[w["fixed"]] for w in ws if w.get("fixed") is not None}
+
     def imports_for(doc):
         up = "../" if doc["path"].startswith("sub/") else "./"
         cands = [up + w["path"] for w in ws]
@@ -83,7 +95,7 @@ def generate(rng, tier, idx):
 
     for d in docs:
         if d["on_disk"]:
-            d["disk_text"] = gen_ucg.gen_text(rng, imports_for(d))[1]
+            d["disk_text"] = gen_ucg.gen_text(rng, imports_for(d), True, exports_for(d))[1]
     # ---- session -----------------------------------------------------------------------------
     nmsg = rng.between(1, 30)
     session = []
@@ -124,7 +136,7 @@ def generate(rng, tier, idx):
                 if docs[i].get("disk_text") is not None and rng.chance(50):
                     cls, text = "disk_text", docs[i]["disk_text"]
                 else:
-                    cls, text = gen_ucg.gen_text(rng, imports_for(docs[i]))
+                    cls, text = gen_ucg.gen_text(rng, imports_for(docs[i]), True, exports_for(docs[i]))
                 session.append({"m": "open", "doc": i, "text": text, "cls": cls, "dup": i in state})
                 state[i] = text
                 last_text[i] = text
@@ -134,12 +146,12 @@ def generate(rng, tier, idx):
             if rng.chance(35):
                 cls, text = "mutated_current", gen_ucg.mutate(rng, state[i])
             else:
-                cls, text = gen_ucg.gen_text(rng, imports_for(docs[i]))
+                cls, text = gen_ucg.gen_text(rng, imports_for(docs[i]), True, exports_for(docs[i]))
             texts = [text]
             if mode["protocol"] and rng.chance(12):
                 texts = []
             elif mode["protocol"] and rng.chance(15):
-                texts = [gen_ucg.gen_text(rng, imports_for(docs[i]))[1], text]
+                texts = [gen_ucg.gen_text(rng, imports_for(docs[i]), True, exports_for(docs[i]))[1], text]
             session.append({"m": "change", "doc": i, "texts": texts, "cls": cls})
             if texts:
                 state[i] = texts[-1]
@@ -197,7 +209,7 @@ def generate(rng, tier, idx):
             if kind == "change_unopened":
                 if i in state:
                     continue
-                cls, text = gen_ucg.gen_text(rng, imports_for(docs[i]))
+                cls, text = gen_ucg.gen_text(rng, imports_for(docs[i]), True, exports_for(docs[i]))
                 session.append({"m": "change", "doc": i, "texts": [text], "cls": cls, "unopened": True})
                 state[i] = text
                 last_text[i] = text
